@@ -89,6 +89,7 @@ func TestVerif(t *testing.T) {
 	simkit.Main(t, propC29())
 	simkit.Main(t, propC45())
 	simkit.Main(t, propC31())
+	simkit.Main(t, propC04n())
 }
 
 // ---------------------------------------------------------------------------------------------
